@@ -92,6 +92,7 @@ class AsyncIOClient(ABC):
             build_network_map = build_network_map)
         self.encoder = NMEA2000Encoder()
         self.lock = asyncio.Lock()
+        self._send_lock = asyncio.Lock()  # keeps the packets of one message contiguous on the link
         
         # Setup logging
         self.logger = logging.getLogger(__name__)
@@ -242,10 +243,12 @@ class AsyncIOClient(ABC):
         try:
             msgs = self._encode_impl(nmea2000Message)
             assert self.writer is not None
-            for msg in msgs:
-                self.writer.write(msg)
-                await self.writer.drain()
-                self.logger.debug(f"Sent: {msg.hex()}")
+            # drain() may suspend: hold the link so that a concurrent send() cannot interleave its packets
+            async with self._send_lock:
+                for msg in msgs:
+                    self.writer.write(msg)
+                    await self.writer.drain()
+                    self.logger.debug(f"Sent: {msg.hex()}")
 
         except (ValueError, NotImplementedError) as ve:
                 # the message cannot be sent as such (bad field, unknown PGN, gateway format without an encoder):
